@@ -266,6 +266,8 @@ func (s *Solver) Values(ts []*Term) []modelVal {
 	if len(ts) == 0 {
 		return nil
 	}
+	t0v := time.Now()
+	defer func() { s.timeNs += time.Since(t0v).Nanoseconds() }()
 	var refs []string
 	for _, t := range ts {
 		refs = append(refs, s.define(t))
